@@ -410,15 +410,15 @@ def epilogue_position_semantics(db, ctx):
                     for st in blk['stmts']:
                         if st['k'] == 'assign' and st['rv']['k'] == 'use':
                             e = norm(R.rvalue(st['rv']))
-                            b = m(('idx', ('call~', '::index', ('$data', ('idx', '$out', '$col'))), '$col'), e)
-                            if b is not None:
-                                col = b['$col']
-                                # every column 0..C is visited: col ranges over exactly 0..C::USIZE
-                                if col[0] == 'elem' and col[1][0] == 'agg' and len(col[1][2]) == 2 and norm(col[1][2][0]) == ('k', 0) and common.is_usize_const(col[1][2][1]):
+                            b = m(('idx', ('call~', '::index', ('$data', '$r')), '$c'), e)
+                            cf = common.cell_form(b['$r']) if b is not None else None
+                            if cf is not None and norm(cf[1]) == norm(b['$c']):
+                                # candidate (row = output[t], col = t) for every t: t ranges over exactly 0..C::USIZE, or over the whole spilled array
+                                xs = norm(cf[0])
+                                whole = cf[3][0] == 'len' and norm(cf[3][1]) == xs and xs[0] == 'v' and g.local_ty(xs[1]).startswith(('[', 'generic_array::GenericArray'))
+                                if common.is_usize_const(cf[3]) or whole:
                                     ok = True
                                     cmp_cells = True
-                                else:
-                                    short_range = X.show(col, 80)
         if ok and cmp_cells:
             n += 1
             ctx.ok('R7.2e', f, 'candidate (row = x[t], col = t); winner chosen by comparing data[pos]')
@@ -483,19 +483,21 @@ def r75(db, ctx):
     if len(pushes) == 1:
         bi, t = pushes[0]
         v = norm(R.operand(t['args'][1]))
-        b = m(('call~', 'MatrixCoordinates::new', (('fld', ('elem', ('call~', 'enumerate', (('call~', 'DenseMatrix::iter', ('$mx',)),)), '$L'), '0'), ('elem', ('agg', '_', (('k', 0), '$C')), '$Lc'))), v)
+        b = m(('call~', 'MatrixCoordinates::new', (('fld', ('elem', ('call~', 'enumerate', (('call~', 'DenseMatrix::iter', ('$mx',)),)), '$L'), '0'), '$col')), v)
         rels = G.relations(f, R, bi)
         g = [r for r in rels if r[0] in ('ge', 'gt', 'le', 'lt')]
-        if b is not None and common.is_usize_const(b['$C']) and common.is_call_to(b['$mx'], 'StripedScores::matrix') and g:
+        colix = common.index_form(b['$col']) if b is not None else None
+        if b is not None and colix is not None and common.is_call_to(b['$mx'], 'StripedScores::matrix') and g:
             r = g[-1]
             lhs, rhs, rel = norm(r[1]), norm(r[2]), r[0]
-            if rhs[0] == 'idx':
+            if common.cell_form(rhs) is not None and common.cell_form(lhs) is None:
                 lhs, rhs, rel = rhs, lhs, {'ge': 'le', 'gt': 'lt', 'le': 'ge', 'lt': 'gt'}[rel]
-            cell = m(('idx', ('fld', ('elem', '_', b['$L']), '1'), ('elem', '_', b['$Lc'])), lhs)
-            if cell is not None and rel == 'ge' and rhs[0] == 'p':
+            cf = common.cell_form(lhs)
+            row_i = ('fld', ('elem', norm(v)[2][0][1][1], b['$L']), '1')       # the row of the same enumerate element whose .0 is pushed
+            if cf is not None and norm(cf[0]) == norm(row_i) and norm(cf[1]) == norm(b['$col']) and common.covers_all_columns(cf[3], cf[0]) and rel == 'ge' and rhs[0] == 'p':
                 ok = True
             else:
-                why = f'comparison is {X.show(lhs, 60)} {rel} {X.show(rhs, 30)}'
+                why = f'comparison is {X.show(lhs, 60)} {rel} {X.show(rhs, 30)} (cell of the pushed row/column over all C columns expected)'
         else:
             why = f'pushed {X.show(v, 120)}'
     (ctx.ok if ok else ctx.fail)('R7.5', f, 'threshold: push (i, col) iff row_i[col] >= t, all rows x all C columns', *([['inclusive', 'each cell once']] if ok else [why]))
@@ -545,10 +547,12 @@ def r7_generic(db, ctx):
     why = f'updates {sorted(upd)}'
     if ok:
         (vr, gr), (vc, gc), (vs, gs) = upd['best_row'], upd['best_col'], upd['best_score']
-        cell = m(('idx', ('fld', ('elem', ('call~', 'enumerate', ('_',)), '$L'), '1'), ('elem', '_', '$Lc')), vs)
-        if not (cell is not None and gr == gc == gs and gr is not None and vr == ('fld', ('elem', vs[1][1][1], vs[1][1][2]), '0') and vc == vs[2]):
+        cf = common.cell_form(vs)
+        rowm = m(('fld', ('elem', ('call~', 'enumerate', ('_',)), '$L'), '1'), norm(cf[0])) if cf is not None else None
+        if not (cf is not None and rowm is not None and gr == gc == gs and gr is not None and vr == ('fld', norm(cf[0])[1], '0') and norm(vc) == norm(cf[1])
+                and common.covers_all_columns(cf[3], cf[0])):
             ok = False
-            why = 'row / col / value are not the same cell or not under one comparison'
+            why = 'row / col / value are not the same cell (over all C columns) or not under one comparison'
         elif not (norm(gr[1]) == vs and norm(gr[2])[0] == 'v'):
             ok = False
             why = 'comparison is not cell >= best_score'
